@@ -402,6 +402,15 @@ class Run:
             self._o2(bound, out, ref, "call", env)
             self._o2_pristine(bound, out, env, "call")
             self._o5(bound, out, value, "call", env)
+            if env and self._ambient_exc(out):
+                # repeating the call under the *unchanged* hostile state must raise again: an exception that
+                # exists only because of the ambient state is tolerated, one that happens once is history
+                rep, _ = self._checked_call(bound, env, pre_args, pre_pool, what="repeated call")
+                if not (rep[0] == "raise" and rep[1] == out[1]):
+                    raise Violation(["C18", "C19"] if bound.importy else ["C19"], "O2-repeat", bound.label,
+                                    f"the same call repeated at once under the same ambient state: first "
+                                    f"{describe(out)}, then {describe(rep)}")
+                self.bump(self.stats, "o2_repeat_under_hostile_state")
             if env and out[0] == "raise":
                 # did the hostile ambient state cause it?  (fired = reference under default differs)
                 ref0 = self.zy.eval(None)
